@@ -43,6 +43,8 @@
 #include <stdexcept>
 #include <string>
 #include <thread>
+#include <typeinfo>
+#include <unistd.h>
 #include <vector>
 #include "core/main.hpp"
 #include "seams/codecvt.hpp"
@@ -302,7 +304,8 @@ struct World
           std::reverse(want.begin(), want.end());
         // (padding bytes of long double precede the value in big endian and follow it in little)
         std::size_t const voff = vals[k].order == std::endian::big ? off + (sz - vb) : off;
-        SIM_CHECK(file.compare(voff, vb, want) == 0, "byte-layout",
+        // (whether the padding precedes or follows the value's bytes is not stated: both accepted)
+        SIM_CHECK(file.compare(voff, vb, want) == 0 || file.compare(off, vb, want) == 0, "byte-layout",
                   "value " + std::to_string(k) + " (type " + std::to_string(vals[k].type) + ", " + (vals[k].order == std::endian::big ? "big" : "little") + " endian) is on disk as " + hex(file.substr(voff, vb)) + ", expected " + hex(want));
         off += sz;
       }
@@ -897,6 +900,13 @@ struct World
       std::string const want_y = std::to_string(y);
       // a text longer than any converted before in this process now and then (an implementation
       // that keeps a stream between calls grows its buffer exactly then)
+      bool const fired_at_start = sim::fault::fired(sim::fault::alloc);
+      auto const reported_otherwise = [&](bool fired_earlier, std::exception const &e) {
+        if (sim::fault::fired(sim::fault::alloc) && !fired_earlier)
+          ctx.probe("text_conversion_reported_another_exception");
+        else
+          sim::violate("string-roundtrip", std::string("a text conversion that no fault was injected into threw ") + typeid(e).name() + " (" + e.what() + ")" + (fired_earlier ? " - an EARLIER conversion of this history was hit by an allocation failure" : ""));
+      };
       try
       {
         std::string const big(static_cast<std::size_t>(r.below(12) == 0 ? r.below(600) : r.below(40)), 'x');
@@ -911,6 +921,11 @@ struct World
       {
         SIM_CHECK(sim::fault::fired(sim::fault::alloc), "undocumented-exception", "bad_alloc without an injected failure");
         ctx.probe("text_conversion_reported_bad_alloc");
+      }
+      catch (std::exception const &e)
+      {
+        // any exception is a report of the failure - if a failure was injected into THIS conversion
+        reported_otherwise(fired_at_start, e);
       }
       bool const fired_before = sim::fault::fired(sim::fault::alloc);
       try
@@ -944,15 +959,16 @@ struct World
         SIM_CHECK(sim::fault::fired(sim::fault::alloc), "undocumented-exception", "bad_alloc without an injected failure");
         ctx.probe("text_conversion_reported_bad_alloc");
       }
-      catch (std::ios_base::failure const &e)
+      catch (std::exception const &e)
       {
-        sim::violate("string-roundtrip", std::string("a text conversion that no fault was injected into threw std::ios_base::failure (") + e.what() + ")" + (fired_before ? " - an EARLIER conversion of this history was hit by an allocation failure" : ""));
+        reported_otherwise(fired_before, e);
       }
       // the same for a composite value: a vector's text through output_to_std_(w)string
       {
         using vec3l = fcppt::math::vector::static_<long long, 3>;
         long long const a = static_cast<long long>(r.next()), b = static_cast<long long>(r.next()), c3 = static_cast<long long>(r.below(100000));
         std::string const want_v = "(" + std::to_string(a) + "," + std::to_string(b) + "," + std::to_string(c3) + ")";
+        bool const fired_before_vector = sim::fault::fired(sim::fault::alloc);
         try
         {
           std::string sv;
@@ -969,6 +985,10 @@ struct World
         {
           SIM_CHECK(sim::fault::fired(sim::fault::alloc), "undocumented-exception", "bad_alloc without an injected failure");
           ctx.probe("text_conversion_reported_bad_alloc");
+        }
+        catch (std::exception const &e)
+        {
+          reported_otherwise(fired_before_vector, e);
         }
       }
       sim::fault::Sut s;
@@ -1092,7 +1112,7 @@ void generate(sim::Rng &rng, sim::Plan &p, bool)
   unsigned const nops = static_cast<unsigned>(rng.range(1, 6));
   for (unsigned k = 0; k < nops; ++k)
   {
-    unsigned const kind = static_cast<unsigned>(rng.below(faulty ? 9 : 10));
+    unsigned const kind = static_cast<unsigned>(rng.below(10));
     sim::Op op;
     long const vs = static_cast<long>(rng.below(1000000000));
     if (kind < 3)
@@ -1187,4 +1207,16 @@ void execute(sim::Plan const &p, sim::Ctx &ctx)
 }
 }
 
-int main(int argc, char **argv) { return sim::sim_main(argc, argv); }
+int main(int argc, char **argv)
+{
+  // The property speaks of a UTF-8 locale and some entry points take the environment's: the process
+  // is started again with LC_ALL=C.UTF-8 unless it already has it, so that even a locale captured
+  // during static initialisation is the right one.
+  char const *const lc = std::getenv("LC_ALL");
+  if (lc == nullptr || std::strcmp(lc, "C.UTF-8") != 0)
+  {
+    ::setenv("LC_ALL", "C.UTF-8", 1);
+    ::execv("/proc/self/exe", argv);
+  }
+  return sim::sim_main(argc, argv);
+}
